@@ -215,7 +215,8 @@ Pubrel(c, id) ==
    produces nothing but the PINGRESP the barrier consumes.                              *)
 
 -----------------------------------------------------------------------------
-(* End of a connection: how = "disconnect" (DISCONNECT packet), "cut" (network connection
+(* End of a connection: how = "disconnect" (DISCONNECT packet), "disconnect-eof" (the same, with the end of the stream
+   reaching the broker in the same read as the DISCONNECT), "cut" (network connection
    closed), "bad" (malformed packet: protocol error).  Subscriptions leave the tree, the
    will of THIS connection is accepted unless the end was a DISCONNECT, a clean session is
    discarded.  (3.1.2.5, 3.14)                                                          *)
@@ -224,7 +225,7 @@ End(c, how) ==
   /\ LET k == conn[c].cid
          subs1 == {s \in subs : s.who # c}
          w == conn[c].will
-         fire == how # "disconnect" /\ w.on
+         fire == how \notin {"disconnect", "disconnect-eof"} /\ w.on
      IN /\ subs' = subs1
         /\ ret' = IF fire THEN RetUpd(ret, w.t, w.q, w.pl, w.r) ELSE ret
         /\ out' = IF fire THEN FanOut(O0, subs1, w.t, w.q, w.pl) ELSE O0
